@@ -93,7 +93,9 @@ def generate(rng: Prng, tier: str) -> dict:
             reads.append({"source": w.choice(["path", "string", "bytes", "textwrapper"]),
                           "stream": gen_stream(sp) if faulting else {}})
         gens.append({"write": write, "reads": reads})
+    hist = rng.stream("history")
     return {"prop": PROP, "tree": tree, "comments": comments, "tsource": w.choice(SOURCES), "gens": gens,
+            "bystander": hist.chance(0.3), "comments_none": hist.chance(0.5),
             "config": "faulting" if faulting else "fault_free"}
 
 
@@ -160,7 +162,16 @@ def execute(program: dict) -> dict:
     comments = list(program["comments"])
     tsource = program["tsource"]
     with World() as world:
-        tree = common.build_tree(model, comments=comments, source=tsource)
+        bystander = None
+        if program.get("bystander"):
+            # a second, unrelated tree created without a comments argument and annotated in place: the
+            # written tree's own comments (the reference model's) must be all that reaches the file
+            bystander = common.build_tree(model, comments=None, source="")
+        tree = common.build_tree(model, comments=None if (program.get("comments_none") and not comments) else comments,
+                                 source=tsource)
+        if bystander is not None:
+            bystander.comments.append("bystander note, not a comment of the written tree")
+            world.log("bystander_edit")
         for gi, gen in enumerate(program["gens"]):
             wr = gen["write"]
             exp, exp_comments, n = expected_after(model, comments, tsource, wr)
@@ -264,6 +275,8 @@ def shrink_candidates(program: dict):
     for g in range(len(program["gens"])):
         yield from shrink.drop_from_list(program, ["gens", g, "reads"], min_len=1)
     yield from shrink.drop_from_list(program, ["comments"])
+    if program.get("bystander"):
+        yield shrink.with_value(program, ["bystander"], False)
     n = len(program["tree"]["pid"])
     for i in range(n - 1, 0, -1):
         c = _drop_leaf(program, i)
